@@ -41,6 +41,21 @@ def main():
                     cfg['out_sim_score'] = [False]
                 ck.e2('%s-%dx%d-o%d' % (f, shape['nl'], shape['nr'], oi), h_join.make(cfg),
                       stop_on_violation=True)
+    # filter_pair / filter_candset / apply_matcher: pairs with a missing side are dropped iff not allow_missing
+    from harness import h_pair, h_cand
+    for f in stages.FILTERS:
+        ck.e2('pair-%s' % f, h_pair.make(dict(filter=f, measure='JACCARD' if f != 'OverlapFilter' else 'OVERLAP',
+                                              k=1, kmin=0, thresholds=[0.5] if f != 'OverlapFilter' else [1],
+                                              missing='sym', nonempty='sym', allow_missing=[False, True],
+                                              allow_empty=[True], props=P)))
+    ck.e2('candset-missing', h_cand.make(dict(mode='candset', filter='SizeFilter', measure='JACCARD', thresholds=[0.5],
+                                              nl=2, nr=2, ncand=[2], k=1, kmin=0, missing='sym',
+                                              allow_missing=[False, True], n_jobs=[1, 2], extra_col=[False],
+                                              props=['C06', 'C08', 'CRASH'])))
+    ck.e2('matcher-missing', h_cand.make(dict(mode='matcher', nl=2, nr=2, ncand=[2, 3], missing='sym', tokenizer=[True, False],
+                                              comp_ops=['>='], allow_missing=[False, True], out_sim_score=[True],
+                                              out_attrs=[(None, None)], n_jobs=[1, 2], extra_col=[False],
+                                              bound_method=[False], props=['C05', 'C08', 'CRASH'])))
     ck.finish()
 
 
